@@ -7,6 +7,7 @@ mod c04;
 mod c05;
 mod c06;
 mod c07;
+mod c08;
 mod c11;
 mod c12;
 mod c14;
@@ -93,6 +94,7 @@ const CHECKS: &[(&str, CheckFn)] = &[
     ("C05", c05::c05),
     ("C06", c06::c06),
     ("C07", c07::c07),
+    ("C08", c08::c08),
     ("C09", redir::c09),
     ("C10", redir::c10),
     ("C11", c11::c11),
@@ -113,6 +115,7 @@ const REPLAYERS: &[(&str, ReplayFn)] = &[
     ("c06", c06::replay),
     ("c06-ae", c06::replay),
     ("c07", c07::replay),
+    ("c08", c08::replay),
     ("c09", redir::replay09),
     ("c10", redir::replay10),
     ("c11", c11::replay),
